@@ -27,6 +27,10 @@ func dumpDescribe(c *Ctx, spec string) {
 		fmt.Println("not found")
 		return
 	}
+	fmt.Println("== facts (WIRE)")
+	for _, f := range c.facts(fn) {
+		fmt.Println("  ", f)
+	}
 	for _, f := range withClosures(fn) {
 		fmt.Println("==", fname(f))
 		ac := &affCtx{c: c, fn: f, alias: map[ssa.Value]string{}}
